@@ -338,6 +338,8 @@ type builtDAG struct {
 	route []string
 	// dataset -> index of the commit currently at its head (datasets used while building)
 	heads map[string]int
+	// witDag, when set, replaces the full parent list in violation witnesses (tall graphs)
+	witDag any
 }
 
 // buildDAG writes every commit of m through the real API, choosing one of three construction routes per commit:
